@@ -377,13 +377,18 @@ def main(out_v, out_json):
     out.append("Definition uhooks_ : list (pty * hook) := [\n  " + ";\n  ".join(urows) + "].")
     out.append("Definition Sg : sigma := {| classes := classes_; enums := enums_; uhooks := uhooks_; forbid_extra := %s |}." % b(getattr(conv, "forbid_extra_keys", False)))
     # module-level type alias objects
-    arows = []
+    arows, plain = [], []
     for name, obj in sorted(T.ALL_TYPES_MAP.items()):
         if name == "__builtins__":
             continue        # inserted by attrs.resolve_types (eval) into the map it is given
-        if not isinstance(obj, type):
+        if isinstance(obj, type) and obj.__module__ == T.__name__:
+            if not attrs.has(obj) and not issubclass(obj, enum.Enum):
+                plain.append(name)
+            continue
+        if True:
             arows.append("(%s, %s)" % (q(name), ty(obj)))
     out.append("Definition alias_objects : list (string * pty) := [\n  " + ";\n  ".join(arows) + "].")
+    out.append("Definition plain_classes : list string := [%s]." % "; ".join(q(x) for x in plain))
     write_if_changed(out_v, "\n".join(out) + "\n")
     stats["classes"] = len(cls_names)
     stats["enums"] = len(enum_names)
